@@ -6,10 +6,10 @@ import datetime
 from . import keypool
 from .refpgp import wire, keys as rkeys, sig as rsig, grammar
 
-HASHES = {1: 'MD5', 2: 'SHA1', 8: 'SHA256', 9: 'SHA384', 10: 'SHA512', 11: 'SHA224'}
+HASHES = {1: 'MD5', 2: 'SHA1', 3: 'RIPEMD160', 8: 'SHA256', 9: 'SHA384', 10: 'SHA512', 11: 'SHA224'}
 HASH_IDS = [8, 2, 10, 9, 11, 1]
 
-KINDS = ['doc', 'doc-msg', 'text', 'text-cleartext', 'standalone', 'timestamp', 'cert-10', 'cert-11', 'cert-12', 'cert-13',
+KINDS = ['doc', 'doc-msg', 'msg-u', 'msg-t', 'text', 'text-cleartext', 'standalone', 'timestamp', 'cert-10', 'cert-11', 'cert-12', 'cert-13',
          'cert-ua', 'cert-self', 'attest', 'direct-self', 'direct-3rd', 'revoker', 'bind', 'bind-signing', 'rev-key', 'rev-subkey',
          'rev-uid']
 
@@ -138,6 +138,8 @@ def make_triple(label, kid, halg, doc=b'', target='ed25519-2', signing_subkey=No
     from pgpy.constants import HashAlgorithm, SignatureType, KeyFlags, RevocationReason
     opts = dict(opts or {})
     H = HashAlgorithm(halg)
+    if target == kid:
+        target = 'ed25519-1' if kid != 'ed25519-1' else 'ed25519-0'
     signer, signer_cert = signer_setup(kid, signing_subkey)
     if created is not None:
         opts['created'] = utc(created)
@@ -168,12 +170,22 @@ def make_triple(label, kid, halg, doc=b'', target='ed25519-2', signing_subkey=No
         t.doc = bytes(doc)
         t.carrier_blob = bytes(msg)
         return fin(sig, 'doc')
+    if label in ('msg-u', 'msg-t'):
+        # a literal message in a text format, signed: the signature must be valid over the literal body as exported
+        text = doc.decode('utf-8', 'replace') if isinstance(doc, (bytes, bytearray)) else doc
+        msg = pgpy.PGPMessage.new(text, compression=pgpy.constants.CompressionAlgorithm.Uncompressed, format=label[-1])
+        sig = signer.sign(msg, hash=H, **opts)
+        msg |= sig
+        t.carrier_blob = bytes(msg)
+        t.doc = grammar.parse_message(t.carrier_blob).literal.data
+        return fin(sig, 'doc')
     if label in ('text', 'text-cleartext'):
         text = doc.decode('utf-8', 'replace') if isinstance(doc, (bytes, bytearray)) else doc
         msg = pgpy.PGPMessage.new(text, cleartext=True)
         sig = signer.sign(msg, hash=H, **opts)
         msg |= sig
-        t.doc = text.encode('utf-8')
+        # what a cleartext signature covers: the text without trailing blanks at line ends (RFC 4880 7.1)
+        t.doc = '\n'.join(l.rstrip(' \t\r') for l in text.split('\n')).encode('utf-8')
         if label == 'text-cleartext':
             t.carrier_blob = str(msg)
         return fin(sig, 'text')
